@@ -28,6 +28,8 @@ func main() {
 		crashMain(os.Args[2:])
 	case "conc":
 		concMain(os.Args[2:])
+	case "block":
+		blockMain(os.Args[2:])
 	default:
 		fmt.Fprintln(os.Stderr, "unknown mode", os.Args[1])
 		os.Exit(2)
